@@ -100,6 +100,53 @@ def rpq_send_cancel(h):
     h.cover("c09.rpq-send.cancelled-after-room", scenario == 1)
 
 
+def rpq_pop_cancel_every_point(h):
+    """ReadyPipeQueue::pop with 0, 1 or `capacity` items queued (capacity 1 or 2): the future is polled up to three
+    times and may be dropped after any poll that returned Pending (while parked on an empty queue an item may be
+    enqueued first). Whatever was enqueued is either returned by the pop that completed or still in the queue."""
+    cap = 1 + h.choose(2, "capacity")
+    pre = [0, 1, cap][h.choose(3, "prefilled")]
+    pre = min(pre, cap)
+    q = Ref(Cell(h.method(RPQ, "new", 4), "rpq"), ())
+    snd = Ref(Cell(h.method(RPQ, "register_pipe", q, 0, cap, 1), "sender"), ())
+    h.panic_role = "c09.rpq-pop-points"
+    sent = []
+    def enqueue():
+        x = 100 + len(sent)
+        r = h.method(SND, "try_send", snd, x)
+        if r.idx == 0:
+            sent.append(x)
+    for _ in range(pre):
+        enqueue()
+    f = Fut(h, RPQ, "pop", [q])
+    got = []
+    cancelled_at = None
+    for n in range(1, 4):
+        r = f.poll()
+        if r is not None:
+            h.check(r.idx == 0, "c09.rpq-pop-points.pop-failed")
+            if r.idx == 0:
+                got.append(r.f[0].f[1])
+            break
+        act = h.choose(3 if not sent or len(sent) == len(got) else 2, f"after_pending_poll{n}")      # 0 drop the future, 1 poll again, 2 enqueue then poll again
+        if act == 0:
+            f.cancel()
+            cancelled_at = n
+            break
+        if act == 2:
+            enqueue()
+    else:
+        f.cancel()                      # still parked after three polls: dropped there
+        cancelled_at = 3
+    rest = _drain(h, q)
+    h.check(got + rest == sent, "c09.rpq-pop-points.item-lost-or-duplicated-when-pop-is-dropped-at-an-await",
+            f"capacity {cap}, {pre} queued before pop, future dropped after Pending poll #{cancelled_at}: enqueued {sent}, returned by pop {got}, left in the queue {rest}")
+    rc, qc = _counts(h, snd)
+    h.check(rc == 0 and qc == 0, "c09.rpq-pop-points.counters-after-drain", f"reserved {rc} queued {qc}")
+    h.cover("c09.rpq-pop-points.dropped-while-parked", cancelled_at is not None)
+    h.cover("c09.rpq-pop-points.completed", bool(got))
+
+
 def rpq_pop_cancel(h):
     """ReadyPipeQueue::pop on an empty queue parks on the ready list; the future is dropped there, before or
     after a producer enqueued an item."""
